@@ -364,6 +364,10 @@ def plan(ctx):
           if not th and impl in ('sql', 'sub_dup') and seed == 1:
             continue
           hc.append({'dataset': name, 'impl': impl, 'seed': seed + ctx.seed, 'k': k, 'depth': d})
+  # one long run: 40 consecutive rounds, then a jump back and 5 more (every sample against a fresh sampler seated there)
+  for name, impl in (('zeros5', 'mem'), ('zeros5', 'sql'), ('many60', 'mem')):
+    hc.append({'dataset': name, 'impl': impl, 'seed': ctx.seed, 'k': 3, 'depth': 46,
+               'ops': [['sample']] * 40 + [['set', 2]] + [['sample']] * 5})
   ctx.pmap('histories', hc, chunk=1)
   sc = [{'dataset': name, 'impl': impl, 'k': k, 'buffers': [1, 2, len(ids) + 1], 'stream_seeds': [0, 3],
          'max_start': 4}
